@@ -242,6 +242,8 @@ def o4(W, ob):
 
 from . import helpers
 
+from . import initial
+
 OBLIGATIONS = [
     ('C18.O1', 'inventory', 'every growable collection field of the sessions / endpoint / sync layer is listed; every growth site found by the writer-set analysis is '
      'recorded with its bounding construct; fixed-size collections have no growth site outside constructors.', o1),
@@ -251,4 +253,5 @@ OBLIGATIONS = [
      'the drain removes what it sends and follows the sent-cursor.', o3),
     ('C18.O4', 'sync_random_requests', 'nonces are created only while synchronizing (outside the property\'s synchronized session); listed.', o4),
     ('C18.H', 'helpers the rules above rely on', 'the bodies of the helpers named by this property\'s rules compute what the rules assume (next_complete); see rules/helpers.py', helpers.bundle('next_complete')),
+    ('C18.I', 'initial state', 'every constructor gives the fields this property\'s rules interpret (NULL_FRAME = none / nothing yet, 0 = first frame, latches open, typestate start) the value listed in tables/initial_state.json; every field compared with NULL_FRAME anywhere is listed; see rules/initial.py', initial.rule_for('C18')),
 ]
